@@ -135,6 +135,31 @@ threads-required = 4
         sc.timeout_s = 60
         sc.meta = {"tests": tests, "retries": 0, "threads": 2, "heavy": True, "group_m": None, "group_r": None, "grace": GRACE, "delay_ms": 0, "backoff": "fixed", "run_ignored": "default", "extra": False, "store_s": False, "store_f": True}
         return sc
+    if k == 4:
+        # fixed scenario (corpus): nextest's terminal does not take output for 7 s while a failing test's 600 kB of output is being
+        # displayed — the dispatcher is blocked in write(2) meanwhile; every selected test must still run once and finish
+        w = lambda ms_, code: {"kind": "pass" if code == 0 else "fail", "acts": [f"work:{ms_}", f"exit:{code}"], "out": None, "err": None, "expect": "P" if code == 0 else "F"}
+        noisy = {"kind": "fail", "acts": ["outn:out:77:600000:65536:0:ascii", "exit:1"], "out": (77, 600000, "ascii"), "err": None, "expect": "F"}
+        tests = [{"bin": "t_one", "pkg": "alpha", "name": "a_noisy_fail", "ignored": False, "attempts": [noisy]}]
+        tests += [{"bin": b, "pkg": pk, "name": n, "ignored": False, "attempts": [w(50, 0)]} for (b, pk, n) in (("t_one", "alpha", "b_quick"), ("t_two", "alpha", "c_quick"), ("t_three", "beta", "d_quick"), ("t_three", "beta", "e_quick"))]
+        for t in tests: sc.test(t["bin"], t["name"], {"1": t["attempts"][0]["acts"]})
+        sc.config = '''[profile.default]
+retries = 0
+test-threads = 2
+fail-fast = false
+status-level = "all"
+final-status-level = "none"
+failure-output = "immediate"
+success-output = "never"
+[profile.default.junit]
+path = "@JUNIT@"
+'''
+        sc.cli = []
+        sc.env = {}
+        sc.timeout_s = 60
+        sc.stall_stderr_s = 7
+        sc.meta = {"tests": tests, "retries": 0, "threads": 2, "heavy": False, "group_m": None, "group_r": None, "grace": GRACE, "delay_ms": 0, "backoff": "fixed", "run_ignored": "default", "extra": False, "store_s": False, "store_f": True}
+        return sc
     retries = rng.choice([0, 0, 1, 2])
     threads = rng.choice([1, 2, 4])
     delay_ms = rng.choice([0, 0, 150]) if retries else 0
